@@ -217,7 +217,8 @@ def emit_file(path: str, cases: List[Case], oracles: Oracles) -> None:
         classes = coq(c.ct.coq())
         env = f"(mk_env {classes} {coq(c.lazy)} oracle_tbl re_tbl email_tbl case_tbl)"
         m = "Sync" if c.mode == "sync" else "Async"
-        out.append(f"  chk {i}%nat {env} {m} {c.fuel}%nat {coq(c.v)} {coq(c.x_seen)} {coq(c.obs)}.\n")
+        tac = {"full": "chk", "class": "chk_class"}[getattr(c, "proj", "full")]
+        out.append(f"  {tac} {i}%nat {env} {m} {c.fuel}%nat {coq(c.v)} {coq(c.x_seen)} {coq(c.obs)}.\n")
     out.append("exact I. Qed.\n")
     with open(path, "w") as f:
         f.write("".join(out))
